@@ -86,6 +86,58 @@ def run(facts, cg, reviewed=None):
             findings.append({'rule': 'R-UNTRUSTED', 'key': 'R-UNTRUSTED|bitar::archive::Archive::try_init|precondition:end-offset-validated', 'function': 'bitar::archive::Archive::try_init',
                              'what': 'the reviewed sinks `offset + size` (ChunkOffset::end, adjacent_reads) rely on try_init rejecting descriptors whose '
                                      'absolute offset plus stored size (archive_size) overflows; no such checked addition is found there any more'})
+    # the reviewed sinks `counter - 1` and `chunks[counter - 1]` of the HTTP chunk reader lean on "a run has at least one chunk": the
+    # value stored into the run counter where a request is built is `<count> + c` with c >= 1 (or floored with max(.., >= 1)).  A
+    # run length that can come out as 0 (a request size cap that the first chunk alone exceeds) underflows there: panic on a legal
+    # archive with big chunks - twice written independently as "limit the size of a range request".
+    from ..terms import Terms, simplify, has_field, walk, show
+    T = Terms(facts)
+    n_run = 0
+    for b in facts.bodies.values():
+        if b.generated or not b.id.startswith('bitar::archive_reader::http_reader::'):
+            continue
+        if not any('q' in ct['callee'] and callee_q(ct).endswith('HttpRangeRequest::new') for _, ct in b.calls()):
+            continue
+        par_ = facts.original.get(b.raw.get('parent') or '')
+        if (par_ is not None and par_.q.endswith('ArchiveReader>::read_at')) or ' as bitar::archive_reader::ArchiveReader>::read_at' in b.q:
+            continue
+        usz = set(facts.fields_by_role('bitar::archive_reader::http_reader::ChunkReader').get('usize') or [])
+        for bi in b.live:
+            for st in b.blocks[bi]['stmts']:
+                if not (st['k'] == 'assign' and st['pl']['p'] and st['pl']['p'][-1]['k'] == 'field' and st['pl']['p'][-1].get('n') in usz):
+                    continue
+                vt = simplify(T.resolve_env(simplify(T.of_rvalue(b, st['rv'], 0))))
+                alts = [vt]
+                if isinstance(vt, tuple) and vt[0] == 'call' and vt[1] in {x.q for x in facts.bodies.values()}:
+                    g = next(x for x in facts.bodies.values() if x.q == vt[1])
+                    alts = []
+                    for d_ in g.defs().get(0, []):
+                        alts.append(simplify(T.of_call(g, d_[1], 0)) if d_[0] == 'call' else simplify(T.of_rvalue(g, d_[1]['rv'], 0)) if d_[0] == 'assign' else ('?',))
+                local_call = isinstance(vt, tuple) and vt[0] == 'call' and vt[1] in {x.q for x in facts.bodies.values()}
+                if not any(any(n_[0] == 'call' and n_[1].split('::')[-1] in ('count', 'len', 'position', 'fold') for n_ in walk(a_)) for a_ in alts) and not local_call:
+                    continue        # not the run length (a decrement, a reset)
+                if any(has_field(a_, f_) for a_ in alts for f_ in usz):
+                    continue        # an update of the counter from itself
+                n_run += 1
+
+                def positive(a_):
+                    while isinstance(a_, tuple) and a_[0] in ('cast',):
+                        a_ = a_[2]
+                    if isinstance(a_, tuple) and a_[0] == 'field' and a_[2] in ('0', 0):
+                        a_ = a_[1]          # the value half of a checked `a + b`
+                    if isinstance(a_, tuple) and a_[0] == 'binop' and a_[1] in ('Add', 'AddWithOverflow', 'AddUnchecked'):
+                        return any(isinstance(x, tuple) and x[0] == 'const' and isinstance(x[1], int) and x[1] >= 1 for x in (a_[2], a_[3]))
+                    if isinstance(a_, tuple) and a_[0] == 'call' and a_[1].split('::')[-1] in ('max', 'saturating_add', 'wrapping_add') :
+                        return any(isinstance(x, tuple) and x[0] == 'const' and isinstance(x[1], int) and x[1] >= 1 for x in a_[2])
+                    return False
+                ok = bool(alts) and all(positive(a_) for a_ in alts)
+                instances.append({'rule': 'R-UNTRUSTED(precondition)', 'what': 'a run of adjacent chunks has at least one chunk', 'function': b.q, 'at': st['loc'], 'holds': ok})
+                if not ok:
+                    findings.append({'rule': 'R-UNTRUSTED', 'key': 'R-UNTRUSTED|%s|precondition:run-length-positive' % b.q, 'function': b.q,
+                                     'what': 'the reviewed sinks `run counter - 1` / `chunks[run counter - 1]` rely on a run holding at least one chunk; the run length stored at %s is '
+                                             'not of the form <count> + 1 any more (%s): a count of 0 underflows there' % (st['loc'], '; '.join(show(a_)[:60] for a_ in alts))})
+    if n_run < 1:
+        findings.append({'rule': 'R-UNTRUSTED', 'key': 'R-UNTRUSTED|-|floor-run-length', 'function': '-', 'what': 'the store of the run length in the HTTP chunk reader was not found (cannot decide)'})
     # work whose amount the peer decides: reqwest's default redirect policy gives up after 10 hops, a custom policy has no limit
     # unless it counts the hops itself (`attempt.previous().len()`)
     for b in facts.bodies.values():
